@@ -142,3 +142,135 @@ Proof.
     + rewrite u16_add_u16_l. f_equal. lia.
 Qed.
 End LDxR.
+
+(* ================================================================== CPIR / CPDR as a whole operation ========
+   The search runs until the counter is exhausted or a byte equal to A is found.  m = the number of elements examined. *)
+Lemma de_cpir : decode_ed 177 = BLOCK BCP false true. Proof. vm_compute. reflexivity. Qed.
+Lemma de_cpdr : decode_ed 185 = BLOCK BCP true true. Proof. vm_compute. reflexivity. Qed.
+Lemma cpx_norm a v bc f : cpx_flags a v bc f = cpx_flags a v (if bc =? 0 then 0 else 1) (Z.land f 1).
+Proof. unfold cpx_flags, FC. rewrite <- Z.land_assoc. change (Z.land 1 1) with 1. destruct (bc =? 0); reflexivity. Qed.
+Lemma cpx_z a v bc f : is8 a -> is8 v -> Z.testbit (cpx_flags a v bc f) 6 = (a =? v).
+Proof.
+  intros Ha Hv. rewrite cpx_norm.
+  assert (Hc : Z.land f 1 = 0 \/ Z.land f 1 = 1) by (pose proof (is1_land1 f) as H1; unfold is1 in H1; lia).
+  destruct (bc =? 0), Hc as [-> | ->]; apply Bool.eqb_prop;
+  [ exact (forall_byte2 (fun a v => Bool.eqb (Z.testbit (cpx_flags a v 0 0) 6) (a =? v)) ltac:(vm_compute; reflexivity) a v Ha Hv)
+  | exact (forall_byte2 (fun a v => Bool.eqb (Z.testbit (cpx_flags a v 0 1) 6) (a =? v)) ltac:(vm_compute; reflexivity) a v Ha Hv)
+  | exact (forall_byte2 (fun a v => Bool.eqb (Z.testbit (cpx_flags a v 1 0) 6) (a =? v)) ltac:(vm_compute; reflexivity) a v Ha Hv)
+  | exact (forall_byte2 (fun a v => Bool.eqb (Z.testbit (cpx_flags a v 1 1) 6) (a =? v)) ltac:(vm_compute; reflexivity) a v Ha Hv) ].
+Qed.
+
+Section CPxR.
+Variable u : Unspec.
+Variable dec : bool.
+Definition op2c : Z := if dec then 185 else 177.
+Definition on_cpxr (cpu : CPU) : Prop :=
+  g_Memory cpu = UserMem /\ g_Interrupt cpu = None /\
+  u8 (ram (g_W cpu) (g_PC cpu)) = 237 /\ u8 (ram (g_W cpu) (inc16 (g_PC cpu))) = op2c.
+
+Lemma step_at_cpxr cpu : on_cpxr cpu ->
+  spec_step u cpu = exec u MHL (BLOCK BCP dec true) (fst (fetch_m1 (fst (fetch_m1 cpu)))).
+Proof.
+  intros (Hm & Hi & H0 & H1). unfold op2c in H1. open_cpu cpu.
+  cbv_struct_in Hm. cbv_struct_in Hi. cbv_struct_in H0. cbv_struct_in H1. subst.
+  unfold spec_step, step_instr. cbv_struct.
+  cbv beta iota zeta delta [fetch_m1 fetch8 rd mem_get wget w_log]. cbv_struct. unfold inc16 in *.
+  rewrite H0. rewrite dm_ed. cbv_struct. rewrite H1. destruct dec; [rewrite de_cpdr | rewrite de_cpir]; reflexivity.
+Qed.
+
+(* one Step at the instruction: one byte compared *)
+Lemma cpxr_one cpu : is16 (g_PC cpu) -> is8 (get_A cpu) -> on_cpxr cpu ->
+  let hl := regw (g_HL cpu) in let bc := regw (g_BC cpu) in let v := u8 (ram (g_W cpu) hl) in
+  let cpu' := spec_step u cpu in
+  regw (g_HL cpu') = bstep dec hl /\ regw (g_BC cpu') = u16 (bc - 1) /\ ram (g_W cpu') = ram (g_W cpu) /\
+  get_A cpu' = get_A cpu /\ Z.testbit (get_F cpu') 6 = (get_A cpu =? v) /\
+  g_PC cpu' = (if (u16 (bc - 1) =? 0) || (get_A cpu =? v) then u16 (g_PC cpu + 2) else g_PC cpu) /\
+  g_Memory cpu' = UserMem /\ g_Interrupt cpu' = None.
+Proof.
+  intros Hpc Ha Hon. cbv zeta. rewrite (step_at_cpxr cpu Hon). destruct Hon as (Hm & Hi & _ & _).
+  destruct (fetch2_facts cpu Hm) as (Eg & Er & Ep & Em & Ei). set (c2 := fst (fetch_m1 (fst (fetch_m1 cpu)))) in *.
+  change (exec u MHL (BLOCK BCP dec true) c2)
+    with (let c3 := block_step u BCP dec c2 in if true && block_again BCP c3 then rewind2 c3 else c3).
+  cbv zeta. destruct (cp_element u dec c2 Em) as (E1 & E3 & E4 & EA & EF).
+  destruct (block_step_env u dec BCP c2) as [Em3 Ei3].
+  pose proof (block_step_pc u BCP dec c2) as E5.
+  set (c3 := block_step u BCP dec c2) in *.
+  assert (Ehl : g_HL c2 = g_HL cpu) by (change (g_HL c2) with (GPR_HL (g_GPR c2)); rewrite Eg; reflexivity).
+  assert (Ebc : g_BC c2 = g_BC cpu) by (change (g_BC c2) with (GPR_BC (g_GPR c2)); rewrite Eg; reflexivity).
+  assert (Eaf : get_A c2 = get_A cpu) by (change (get_A c2) with (Register_Hi (GPR_AF (g_GPR c2))); rewrite Eg; reflexivity).
+  rewrite Ehl, Ebc, Er, Eaf in *.
+  assert (Rhl : regw (g_HL c3) = bstep dec (regw (g_HL cpu))).
+  { rewrite E1. apply regw_wreg. unfold bstep. destruct dec; apply is16_u16. }
+  assert (Rbc : regw (g_BC c3) = u16 (regw (g_BC cpu) - 1)).
+  { rewrite E3. apply regw_wreg. apply is16_u16. }
+  assert (Zf : Z.testbit (get_F c3) 6 = (get_A cpu =? u8 (ram (g_W cpu) (regw (g_HL cpu))))).
+  { rewrite EF. apply cpx_z; [exact Ha | apply is8_u8]. }
+  cbn [andb]. unfold block_again. rewrite Rbc, Zf.
+  destruct (u16 (regw (g_BC cpu) - 1) =? 0) eqn:Ez; cbn [negb andb orb].
+  - repeat split; try assumption; try congruence.
+  - destruct (get_A cpu =? u8 (ram (g_W cpu) (regw (g_HL cpu)))) eqn:Em'; cbn [negb].
+    + repeat split; try assumption; try congruence.
+    + unfold rewind2.
+      change (g_HL (s_PC c3 ?v)) with (g_HL c3). change (g_BC (s_PC c3 ?v)) with (g_BC c3). change (g_W (s_PC c3 ?v)) with (g_W c3).
+      change (get_A (s_PC c3 ?v)) with (get_A c3). change (get_F (s_PC c3 ?v)) with (get_F c3).
+      change (g_Memory (s_PC c3 ?v)) with (g_Memory c3). change (g_Interrupt (s_PC c3 ?v)) with (g_Interrupt c3).
+      change (g_PC (s_PC c3 ?v)) with v.
+      repeat split; try assumption; try congruence.
+      rewrite E5, Ep. rewrite u16_sub_u16_l. replace (g_PC cpu + 2 - 2) with (g_PC cpu) by lia. apply u16_id, Hpc.
+Qed.
+
+(* the whole search.  n = BC (65,536 for 0); m = the number of elements examined: the first m-1 differ from A, and either
+   the m-th equals A or the counter is exhausted (m = n).  Memory is not written. *)
+Theorem cpxr_run : forall (m : nat) (n : Z) cpu, WF cpu -> on_cpxr cpu ->
+  1 <= Z.of_nat m <= n -> n <= 65536 -> regw (g_BC cpu) = u16 n ->
+  (forall j, (S j < m)%nat -> u8 (ram (g_W cpu) (biter dec j (regw (g_HL cpu)))) <> get_A cpu) ->
+  (Z.of_nat m = n \/ u8 (ram (g_W cpu) (biter dec (pred m) (regw (g_HL cpu)))) = get_A cpu) ->
+  let cpu' := spec_iter u m cpu in
+  regw (g_HL cpu') = biter dec m (regw (g_HL cpu)) /\ regw (g_BC cpu') = u16 (n - Z.of_nat m) /\
+  ram (g_W cpu') = ram (g_W cpu) /\ get_A cpu' = get_A cpu /\
+  Z.testbit (get_F cpu') 6 = (get_A cpu =? u8 (ram (g_W cpu) (biter dec (pred m) (regw (g_HL cpu))))) /\
+  g_PC cpu' = u16 (g_PC cpu + 2) /\
+  (forall k, (k < m)%nat -> g_PC (spec_iter u k cpu) = g_PC cpu).
+Proof.
+  induction m as [|m IH]; intros n cpu Hwf Hon Hm Hn Hbc Hne Hlast; [lia|].
+  assert (Hpc : is16 (g_PC cpu)) by (pose proof Hwf as H'; wf_open H'; assumption).
+  assert (Ha : is8 (get_A cpu)) by (pose proof Hwf as H'; open_cpu cpu; wf_open H'; assumption).
+  destruct (cpxr_one cpu Hpc Ha Hon) as (S1 & S3 & S4 & SA & SZ & S5 & S6 & S7).
+  cbv zeta. cbn [spec_iter]. set (cpu1 := spec_step u cpu) in *.
+  assert (Ebc : u16 (regw (g_BC cpu) - 1) = u16 (n - 1)) by (rewrite Hbc, u16_sub_u16_l; reflexivity).
+  rewrite Ebc in S3, S5.
+  destruct m as [|m'].
+  - (* the last element examined *)
+    cbn [spec_iter biter pred] in *.
+    assert (Estop : (u16 (n - 1) =? 0) || (get_A cpu =? u8 (ram (g_W cpu) (regw (g_HL cpu)))) = true).
+    { destruct Hlast as [Hl|Hl].
+      - assert (n = 1) by lia. subst n. reflexivity.
+      - rewrite Hl, Z.eqb_refl. apply orb_true_r. }
+    rewrite Estop in S5. replace (n - Z.of_nat 1) with (n - 1) by lia.
+    repeat split; try assumption.
+    intros k Hk. assert (k = 0)%nat by lia. subst k. reflexivity.
+  - (* more to examine: this byte differs and the counter is not exhausted *)
+    assert (Hd : get_A cpu =? u8 (ram (g_W cpu) (regw (g_HL cpu))) = false).
+    { apply Z.eqb_neq. intro E. apply (Hne 0%nat ltac:(lia)). cbn [biter]. congruence. }
+    assert (Hnz : u16 (n - 1) =? 0 = false).
+    { apply Z.eqb_neq. rewrite u16_id by lia. lia. }
+    rewrite Hd, Hnz in S5. cbn [orb] in S5.
+    assert (Hon1 : on_cpxr cpu1).
+    { destruct Hon as (_ & _ & H0 & H1). unfold on_cpxr. rewrite S4, S5. repeat split; assumption. }
+    assert (Hwf1 : WF cpu1) by (apply spec_step_wf, Hwf).
+    specialize (IH (n - 1) cpu1 Hwf1 Hon1 ltac:(lia) ltac:(lia) S3).
+    rewrite S1, S4, SA in IH.
+    assert (Hne1 : forall j, (S j < S m')%nat -> u8 (ram (g_W cpu) (biter dec j (bstep dec (regw (g_HL cpu))))) <> get_A cpu).
+    { intros j Hj. change (biter dec j (bstep dec (regw (g_HL cpu)))) with (biter dec (S j) (regw (g_HL cpu))). apply Hne. lia. }
+    assert (Hlast1 : Z.of_nat (S m') = n - 1 \/ u8 (ram (g_W cpu) (biter dec (pred (S m')) (bstep dec (regw (g_HL cpu))))) = get_A cpu).
+    { destruct Hlast as [Hl|Hl]; [left; lia | right]. cbn [pred] in *.
+      change (biter dec m' (bstep dec (regw (g_HL cpu)))) with (biter dec (S m') (regw (g_HL cpu))). exact Hl. }
+    specialize (IH Hne1 Hlast1). cbv zeta in IH. destruct IH as (I1 & I3 & I4 & IA & IZ & I5 & I6).
+    rewrite S5 in I5. cbn [pred] in IZ.
+    change (biter dec m' (bstep dec (regw (g_HL cpu)))) with (biter dec (S m') (regw (g_HL cpu))) in IZ.
+    change (biter dec (S m') (bstep dec (regw (g_HL cpu)))) with (biter dec (S (S m')) (regw (g_HL cpu))) in I1.
+    cbn [pred]. replace (n - Z.of_nat (S (S m'))) with (n - 1 - Z.of_nat (S m')) by lia.
+    repeat split; try assumption.
+    intros k Hk. destruct k as [|k']; [reflexivity|]. cbn [spec_iter]. fold cpu1. rewrite I6 by lia. exact S5.
+Qed.
+End CPxR.
